@@ -1,6 +1,7 @@
 import Percival.Proofs.HttpRequest
 import Percival.Proofs.HttpDecode
 import Percival.Proofs.HttpSeg
+import Percival.Proofs.HttpSamples
 /-!
 # C09 — the HTTP client decodes every well-formed response exactly; the request is sent verbatim
 
@@ -9,6 +10,7 @@ wire format `Request.wire`.  Model: `Model/Http.lean`, `Model/HttpRequest.lean`.
 -/
 namespace Percival.C09
 open Percival.Model Percival.Spec.HttpResp
+open Percival.Proofs.HttpSamples (sample)
 
 /-- **Request sent verbatim.**  The bytes `http_request` queues for the server (the header built by the
 `stpcpy` sequence, then the body) are exactly method SP path SP `HTTP/1.1` CRLF, each header as
@@ -46,15 +48,6 @@ theorem decode_serialize (ovf : Bool → Nat → Int) (r : Resp) (ishead : Bool)
       .callback (some { status := (r.final.status : Int), headers := expectedHeaders r,
                         body := some (expectedBody r ishead) }) ws :=
   Percival.Proofs.HttpDecode.decode_serialize ovf r ishead max hwf hmax hsz
-
-/-- a well-formed value: one interim `100 Continue`, then `HTTP/1.1 200 OK`, `A: b` (with OWS),
-    `Transfer-Encoding: chunked`, two chunks "hi" and "!" (the second with an extension) -/
-def sample : Resp :=
-  { interim := [{ minor := 1, status := 100, reason := [32, 67], headers := [] }],
-    final := { minor := 1, status := 200, reason := [32, 79, 75],
-               headers := [{ name := [65], value := [98], pre := [32], post := [9] },
-                           { name := sTransferEncoding, value := sChunked, pre := [32] }] },
-    framing := .chunked [([104, 105], []), ([33], [59, 120])] [] [13, 10] }
 
 example : sample.WF false := by
   refine ⟨?_, ?_, ?_⟩
